@@ -166,46 +166,40 @@ func c14DoneInfo(err error, n int64) balancer.DoneInfo {
 	return di
 }
 
-// c14Guard runs Pick / Done calls on a helper goroutine so that a call that
-// never returns (picker lock never released) does not park the monitor itself.
-type c14Guard struct {
-	jobs chan func()
-	done chan struct{}
-	tm   *time.Timer
-}
-
-func c14NewGuard() *c14Guard {
-	g := &c14Guard{jobs: make(chan func()), done: make(chan struct{}), tm: time.NewTimer(time.Hour)}
-	g.tm.Stop()
-	go func() {
-		for f := range g.jobs {
-			f()
-			g.done <- struct{}{}
-		}
-	}()
-	return g
-}
+// c14Watched runs one scenario on its own goroutine and watches the monitor's
+// progress counter (bumped by every Pick / Done the monitor issues): a Pick or
+// Done that never returns (picker lock never released) must not park the test
+// itself. false = no progress for c14HangWatchdog; the scenario goroutine is
+// abandoned and the caller stops the test.
+var c14Progress int64
 
 const c14HangWatchdog = 30 * time.Second
 
 const c14RaceWatchdog = 120 * time.Second
 
-// run returns false if f did not return within the watchdog (f keeps running).
-func (g *c14Guard) run(f func()) bool {
-	g.jobs <- f
-	g.tm.Reset(c14HangWatchdog)
-	select {
-	case <-g.done:
-		if !g.tm.Stop() {
-			<-g.tm.C
+func c14Watched(m *vk.M, desc string, f func()) bool {
+	done := make(chan struct{})
+	go func() {
+		defer close(done)
+		f()
+	}()
+	tk := time.NewTicker(time.Second)
+	defer tk.Stop()
+	last, idle := atomic.LoadInt64(&c14Progress), 0
+	for {
+		select {
+		case <-done:
+			return true
+		case <-tk.C:
+			if cur := atomic.LoadInt64(&c14Progress); cur != last {
+				last, idle = cur, 0
+			} else if idle++; idle >= int(c14HangWatchdog/time.Second) {
+				c14ClassifyStall(m, desc, fmt.Sprintf("a Pick/Done call of the scenario (operation #%d)", cur+1))
+				return false
+			}
 		}
-		return true
-	case <-g.tm.C:
-		return false
 	}
 }
-
-func (g *c14Guard) close() { close(g.jobs) }
 
 // c14ClassifyStall decides what a stalled Pick/Done is. Pick and Done do no I/O
 // and take microseconds; if, after the watchdog, goroutines are parked on the
@@ -260,13 +254,11 @@ type c14Mon struct {
 	nPick, nAcc, nUnacc, nAdv, nChecks int64
 	nRose, nFell                       int64
 	bad                                bool
-	hung                               bool // a Pick/Done never returned: stop the whole test
-	guard                              *c14Guard
 }
 
 func c14NewMon(m *vk.M, p *p2cPicker, idx map[balancer.SubConn]int, desc func() string) *c14Mon {
 	n := len(p.conns)
-	mon := &c14Mon{m: m, p: p, idx: idx, n: n, desc: desc, guard: c14NewGuard(),
+	mon := &c14Mon{m: m, p: p, idx: idx, n: n, desc: desc,
 		picks: make([]int64, n), comps: make([]int64, n), minLat: make([]int64, n), maxLat: make([]int64, n)}
 	for i := range mon.minLat {
 		mon.minLat[i] = -1
@@ -298,13 +290,8 @@ func (mon *c14Mon) checkAll(ev string) {
 // pick performs one Pick and checks it. ok=false: scenario must stop.
 func (mon *c14Mon) pick() (c14Pending, bool) {
 	now := int64(timex.Now())
-	var res balancer.PickResult
-	var err error
-	if !mon.guard.run(func() { res, err = mon.p.Pick(c14PickInfo) }) {
-		mon.bad, mon.hung = true, true
-		c14ClassifyStall(mon.m, mon.desc(), fmt.Sprintf("Pick #%d", mon.nPick+1))
-		return c14Pending{}, false
-	}
+	atomic.AddInt64(&c14Progress, 1)
+	res, err := mon.p.Pick(c14PickInfo)
 	mon.nPick++
 	if err != nil {
 		mon.violate("C14:pick:error-with-ready-conns", "Pick returned error %v with %d ready connections", err, mon.n)
@@ -331,11 +318,8 @@ func (mon *c14Mon) complete(pd c14Pending, k c14ErrKind) bool {
 	now := int64(timex.Now())
 	lat := now - pd.start
 	di := c14DoneInfo(k.err, (mon.nAcc+mon.nUnacc)*7+int64(pd.conn))
-	if !mon.guard.run(func() { pd.done(di) }) {
-		mon.bad, mon.hung = true, true
-		c14ClassifyStall(mon.m, mon.desc(), fmt.Sprintf("Done(%s) on backend %d", k.name, pd.conn))
-		return false
-	}
+	atomic.AddInt64(&c14Progress, 1)
+	pd.done(di)
 	mon.comps[pd.conn]++
 	if mon.minLat[pd.conn] < 0 || lat < mon.minLat[pd.conn] {
 		mon.minLat[pd.conn] = lat
@@ -378,9 +362,6 @@ func (mon *c14Mon) complete(pd c14Pending, k c14ErrKind) bool {
 }
 
 func (mon *c14Mon) flush(prefix string) {
-	if !mon.hung {
-		mon.guard.close()
-	}
 	mon.m.Count(prefix+"picks", mon.nPick)
 	mon.m.Count(prefix+"done_acceptable", mon.nAcc)
 	mon.m.Count(prefix+"done_unacceptable", mon.nUnacc)
@@ -557,8 +538,9 @@ func TestVerifC14Trace(t *testing.T) {
 			continue
 		}
 		m.Current(fmt.Sprintf("case=%d;%s", idx, vk.JSON(cfg)))
-		nontrivial, digest, ok := c14RunTrace(m, idx, cfg)
-		if !ok || atomic.LoadInt32(&c14Stalled) != 0 {
+		var nontrivial, ok bool
+		var digest string
+		if !c14Watched(m, fmt.Sprintf("case=%d;%s", idx, vk.JSON(cfg)), func() { nontrivial, digest, ok = c14RunTrace(m, idx, cfg) }) || !ok {
 			return
 		}
 		m.Case(digest+fmt.Sprint(idx), nontrivial)
@@ -963,7 +945,7 @@ func c14RunOverlap(m *vk.M, idx int, cfg c14DerivedCfg) (ok bool) {
 	var out []c14Pending // outstanding calls on backend 0, oldest first
 	maxOut := 0
 	warmEnd := int64(c14Start) + int64(2*time.Second)
-	end := warmEnd + int64(30*time.Second)
+	end := warmEnd + int64(16*time.Second)
 	for int64(timex.Now()) < end {
 		now := int64(timex.Now())
 		for len(out) > 0 && slowLat >= 0 && now-out[0].start >= int64(slowLat) {
@@ -1140,19 +1122,21 @@ func TestVerifC14Derived(t *testing.T) {
 		}
 		m.Current(fmt.Sprintf("case=%d;%s", idx, vk.JSON(cfg)))
 		var ok bool
-		switch cfg.Kind {
-		case "share":
-			ok = c14RunShare(m, idx, cfg)
-		case "hirate":
-			ok = c14RunHiRate(m, idx, cfg)
-		case "overlap":
-			ok = c14RunOverlap(m, idx, cfg)
-		case "idle":
-			ok = c14RunIdle(m, idx, cfg)
-		default:
-			ok = c14RunStarve(m, idx, cfg)
-		}
-		if atomic.LoadInt32(&c14Stalled) != 0 {
+		cfg := cfg
+		if !c14Watched(m, fmt.Sprintf("case=%d;%s", idx, vk.JSON(cfg)), func() {
+			switch cfg.Kind {
+			case "share":
+				ok = c14RunShare(m, idx, cfg)
+			case "hirate":
+				ok = c14RunHiRate(m, idx, cfg)
+			case "overlap":
+				ok = c14RunOverlap(m, idx, cfg)
+			case "idle":
+				ok = c14RunIdle(m, idx, cfg)
+			default:
+				ok = c14RunStarve(m, idx, cfg)
+			}
+		}) {
 			return
 		}
 		if !ok {
@@ -1794,6 +1778,7 @@ func c14DriveSubConns(m *vk.M, desc string, pk balancer.Picker, ready []balancer
 			lat = 5 * time.Millisecond
 		}
 		timex.VerifAdvance(lat)
+		atomic.AddInt64(&c14Progress, 1)
 		pd.done(c14DoneInfo(nil, comps[pd.conn]))
 		comps[pd.conn]++
 		return checkInflight("done")
@@ -1802,6 +1787,7 @@ func c14DriveSubConns(m *vk.M, desc string, pk balancer.Picker, ready []balancer
 	var total int64
 	for int64(timex.Now()) < end {
 		now := int64(timex.Now())
+		atomic.AddInt64(&c14Progress, 1)
 		res, err := pk.Pick(c14PickInfo)
 		total++
 		if err != nil {
@@ -1921,7 +1907,11 @@ func TestVerifC14SharedAddr(t *testing.T) {
 			sort.Slice(p.conns, func(i, j int) bool { return id(p.conns[i]) < id(p.conns[j]) })
 			p.r = rand.New(rand.NewSource(cfg.Seed))
 		}
-		picks, ok := c14DriveSubConns(m, desc, pk, ready, cfg.Slow, 6*time.Second, "sharedaddr_")
+		var picks []int64
+		var ok bool
+		if !c14Watched(m, desc, func() { picks, ok = c14DriveSubConns(m, desc, pk, ready, cfg.Slow, 6*time.Second, "sharedaddr_") }) {
+			return
+		}
 		m.Count("sharedaddr_scenarios", 1)
 		if ok && m.WantSample() && cfg.N >= 3 {
 			m.Sample(map[string]any{"scenario": cfg, "picks_per_subconn": picks})
